@@ -444,3 +444,52 @@ def rule_declusesync(ctx, prop: str) -> RuleResult:
             res.add(Finding("DECLUSESYNC", WA, c.node.lineno, "WindowAnalysis", f"decl:{kind}", f"WindowAnalysis does not record `{kind}` declarations: window-ness of such a buffer falls back to the (possibly stale) type on the use"))
     res.floor = 4
     return res
+
+
+def rule_allocsize(ctx, prop: str) -> RuleResult:
+    """`_replace_reads(…, sym, …)` rewrites the uses of `sym` that the pattern `sym[_]` can
+    reach; the size expressions of allocations are not among them (`_children` yields
+    nothing for Alloc).  When `sym` is a loop iterator (divide_loop, shift_loop, mult_loops,
+    fuse …) a size that mentions it would be left with a stale or unbound variable, so the
+    funnel must refuse such bodies (or rewrite the sizes) before it edits anything."""
+    ix = ctx.ix
+    res = RuleResult("ALLOCSIZE")
+    m = ix.module(S)
+    f = m.funcs.get("_replace_reads")
+    if f is None:
+        raise AnalysisError("anchor vanished: _replace_reads")
+    res.analysed.append(f"{S}:_replace_reads")
+    res.instances += 1
+    res.nontrivial += 1
+    first_edit = min((k.lineno for k in f.body_nodes() if isinstance(k, ast.Call) and last_name(k) in ("_replace_helper", "match_pattern")), default=None)
+    ok = False
+    for k in f.body_nodes():
+        if isinstance(k, ast.Call) and isinstance(k.func, ast.Name) and first_edit is not None and k.lineno < first_edit:
+            h = m.funcs.get(k.func.id)
+            if h is None:
+                continue
+            mentions_sym = any(isinstance(a, ast.Name) and a.id == f.params()[3] for a in k.args)
+            alloc_raise = False
+            for n in h.all_nodes():
+                if isinstance(n, ast.If) and "LoopIR.Alloc" in ast.unparse(n.test) and any(isinstance(r, ast.Raise) for r in ast.walk(n)):
+                    alloc_raise = True
+            if mentions_sym and alloc_raise:
+                ok = True
+    res.ob(ok)
+    res.sample(f"_replace_reads refuses bodies whose allocation sizes mention the rewritten symbol before editing: {ok}")
+    if not ok:
+        res.add(
+            Finding("ALLOCSIZE", S, f.lineno, "_replace_reads", "alloc-size-unreached",
+                    "_replace_reads rewrites a symbol through the pattern `sym[_]`, which cannot reach allocation sizes, and does not refuse bodies whose sizes mention it: "
+                    "divide_loop on `for i: x: R[i + 1]; …` leaves `x: R[i + 1]` inside the io/ii nest (free variable; the procedure no longer compiles), fuse leaves the second loop's iterator behind")
+        )
+    # the callers that substitute an iterator go through the funnel
+    callers = [g for g in m.funcs.values() if isinstance(g.node, ast.FunctionDef) and any(isinstance(k, ast.Call) and last_name(k) == "_replace_reads" and any(".iter" in ast.unparse(a) or "loop_iter" in ast.unparse(a) for a in k.args) for k in g.body_nodes())]
+    res.instances += len(callers)
+    for g in callers:
+        res.ob(True)
+        res.sample(f"{g.qualname}: substitutes a loop iterator through _replace_reads")
+    if len(callers) < 4:
+        raise AnalysisError(f"ALLOCSIZE: expected >= 4 iterator substitutions through _replace_reads, found {len(callers)}")
+    res.floor = 5
+    return res
